@@ -6,7 +6,8 @@ package analyzer
 // compiled only with -tags verif, contains no executable code).
 
 //@ func prepareGocritic
-//@   prop C19
+//@   prop C19 C04
+//@   assigns globalGocritic, globalInitErrorReported, any(linter.CheckerParam.Value)
 //@   requires @registry-wf forall k int :: (0 <= k && k < len(registeredCheckers)) ==> wfInfo(registeredCheckers[k])
 //@   requires @cache-wf globalGocritic != nil ==> (forall m int :: (0 <= m && m < len(globalGocritic.infoList)) ==> globalGocritic.infoList[m] != nil)
 //@   ensures @infos-non-nil result0 != nil ==> (forall m int :: (0 <= m && m < len(result0.infoList)) ==> result0.infoList[m] != nil)
@@ -20,7 +21,8 @@ package analyzer
 //@   ensures @key-format result == "@" ++ info.Name ++ "." ++ pname
 
 //@ func newGocritic
-//@   prop C19 C14
+//@   prop C19 C14 C04
+//@   assigns any(linter.CheckerParam.Value)
 //@   loop 2 body @int-param-takes-flag-value typeIs(old(info.Params[pname].Value), "int") ==> (typeIs(info.Params[pname].Value, "int") && unbox(info.Params[pname].Value, "int") == deref(intParams["@" ++ info.Name ++ "." ++ pname]))
 //@   loop 2 body @bool-param-takes-flag-value typeIs(old(info.Params[pname].Value), "bool") ==> (typeIs(info.Params[pname].Value, "bool") && unbox(info.Params[pname].Value, "bool") == deref(boolParams["@" ++ info.Name ++ "." ++ pname]))
 //@   loop 2 body @string-param-takes-flag-value typeIs(old(info.Params[pname].Value), "string") ==> (typeIs(info.Params[pname].Value, "string") && unbox(info.Params[pname].Value, "string") == deref(stringParams["@" ++ info.Name ++ "." ++ pname]))
@@ -35,10 +37,15 @@ package analyzer
 //@   assigns nothing
 //@   requires @infos-non-nil forall k int :: (0 <= k && k < len(critic.infoList)) ==> critic.infoList[k] != nil
 //@   ensures @no-partial-set result1 != nil ==> len(result0) == 0
+//@   ensures @all-valid result1 == nil ==> (forall m int :: (0 <= m && m < len(result0)) ==> validChecker(result0[m]))
+//@   loop 1 invariant @valid-prefix (checkers == nil || fresh(checkers)) && len(checkers) == len(critic.infoList) && (forall m int :: (0 <= m && m < $i) ==> validChecker(checkers[m]))
 
 //@ func runAnalyzer
-//@   prop C19
+//@   prop C19 C08
+//@   dyncalls_frame pass.Report is the driver's callback
+//@   loop 3 body @each-warning-reported-once emitted(converted) == old(emitted(converted)) + 1 && emitted(dyncall) == old(emitted(dyncall)) + 1
 //@   requires pass != nil
+//@   requires @files-non-nil forall k int :: (0 <= k && k < len(pass.Files)) ==> pass.Files[k] != nil
 //@   requires @registry-wf forall k int :: (0 <= k && k < len(registeredCheckers)) ==> wfInfo(registeredCheckers[k])
 //@   requires @cache-wf globalGocritic != nil ==> (forall m int :: (0 <= m && m < len(globalGocritic.infoList)) ==> globalGocritic.infoList[m] != nil)
 
@@ -87,3 +94,16 @@ package analyzer
 //@   loop 1 invariant @fresh-result filtered == nil || fresh(filtered)
 //@   loop 1 invariant @selected-only-prefix forall m int :: (0 <= m && m < len(filtered)) ==> (exists k int :: 0 <= k && k < $i && infoList[k] == filtered[m] && selectedA(infoList[k], flagEnableAll, flagEnable, effDisable(flagDisable, flagEnableAll)))
 //@   loop 1 invariant @all-selected-prefix forall k int :: (0 <= k && k < $i && selectedA(infoList[k], flagEnableAll, flagEnable, effDisable(flagDisable, flagEnableAll))) ==> (exists m int :: 0 <= m && m < len(filtered) && filtered[m] == infoList[k])
+
+// ---- C08: a warning becomes exactly the diagnostic "name: text" with its fix forwarded unchanged
+
+//@ func asDiag
+//@   prop C08 C07
+//@   requires c != nil && c.Info != nil
+//@   assigns nothing
+//@   emits converted(warning.Pos)
+//@   ensures @position-forwarded result.Pos == warning.Pos
+//@   ensures @message-is-name-colon-text result.Message == c.Info.Name ++ ": " ++ warning.Text
+//@   ensures @fix-iff-quickfix (len(result.SuggestedFixes) == 1) <==> (warning.Suggestion.Replacement != nil)
+//@   ensures @no-fix-otherwise (warning.Suggestion.Replacement == nil) ==> len(result.SuggestedFixes) == 0
+//@   ensures @edit-forwarded-unchanged (warning.Suggestion.Replacement != nil) ==> (len(result.SuggestedFixes[0].TextEdits) == 1 && result.SuggestedFixes[0].TextEdits[0].Pos == warning.Suggestion.From && result.SuggestedFixes[0].TextEdits[0].End == warning.Suggestion.To && result.SuggestedFixes[0].TextEdits[0].NewText == warning.Suggestion.Replacement)
